@@ -10,7 +10,8 @@ pub const F_DROP_PANIC: usize = 3;
 pub const F_SOURCE: usize = 4;
 pub const F_DEFAULT_PANIC: usize = 5;
 pub const F_CLOSURE_PANIC: usize = 6;
-pub const N_FAULTS: usize = 7;
+pub const F_SINK: usize = 7;
+pub const N_FAULTS: usize = 8;
 pub const FAULT_NAMES: [&str; N_FAULTS] = [
     "F1-cancel(drop mid-history)",
     "F2-forget(mem::forget)",
@@ -18,7 +19,8 @@ pub const FAULT_NAMES: [&str; N_FAULTS] = [
     "F4-drop-panic(element destructor unwinds)",
     "F5-source-fault(EOF/surplus/panic/lying-hint in from_iter source)",
     "F6-default-panic(T::default unwinds)",
-    "F7-closure-panic(map/map2/zip/map_rows/map_cols callback unwinds)",
+    "F7-closure-panic(callback of map*/fold/for_each/find/... or a loop body unwinds)",
+    "F8-sink-failure(the formatter sink returns Err at its k-th write: `?` early returns in Debug/Display)",
 ];
 
 macro_rules! probes {
